@@ -207,7 +207,16 @@ func genOpts(r *fw.Rand, prev *api.PinOptions) api.PinOptions {
 func genExpiry(r *fw.Rand) time.Time {
 	switch r.Intn(6) {
 	case 0:
-		return time.Now().Add(-time.Hour) // past: refused
+		// past: refused; boundary instants included (the Unix epoch is not "no expiry")
+		switch r.Intn(4) {
+		case 0:
+			return time.Unix(0, 0)
+		case 1:
+			return time.Unix(1, 0).UTC()
+		case 2:
+			return time.Now().Add(-time.Second)
+		}
+		return time.Now().Add(-time.Hour)
 	case 1:
 		return time.Unix(time.Now().Add(time.Hour).Unix(), 0)
 	case 2:
